@@ -9,7 +9,7 @@ import re
 _HERE = os.path.dirname(os.path.abspath(__file__))
 
 
-def _collect(node, in_func, names):
+def _collect(node, in_func, names, strings=None):
     """Local variables of functions are not anchors: no analyser matches them by name, and renaming
     one is an everyday behaviour-preserving edit."""
     for n in ast.iter_child_nodes(node):
@@ -19,7 +19,7 @@ def _collect(node, in_func, names):
                 a = n.args
                 for p in a.posonlyargs + a.args + a.kwonlyargs + ([a.vararg] if a.vararg else []) + ([a.kwarg] if a.kwarg else []):
                     names.add(p.arg)
-            _collect(n, in_func or not isinstance(n, ast.ClassDef), names)
+            _collect(n, in_func or not isinstance(n, ast.ClassDef), names, strings)
             continue
         if isinstance(n, ast.Attribute) and isinstance(n.ctx, ast.Store):
             names.add(n.attr)
@@ -30,13 +30,19 @@ def _collect(node, in_func, names):
             names.add(n.target.attr)
         elif isinstance(n, ast.Constant) and isinstance(n.value, str) and re.fullmatch(r"_?[a-z][a-z0-9_]{2,}", n.value):
             # attribute names used through setattr()/the generated wrapper class ('_break', ...)
-            names.add(n.value)
-        _collect(n, in_func, names)
+            if strings is not None:
+                strings.add(n.value)
+            else:
+                names.add(n.value)
+        _collect(n, in_func, names, strings)
 
 
-def repo_names(repo):
-    """Every attribute / method / function / class / module-level name defined under <repo>/oneliner."""
+def repo_names(repo, split=False):
+    """Every attribute / method / function / class / module-level name defined under <repo>/oneliner
+    (and short string constants: attribute names used through strings, table entries).  With split=True
+    returns (identifiers, strings that are not also identifiers)."""
     names = set()
+    strings = set() if split else None
     base = os.path.join(repo, "oneliner")
     for root, _d, files in os.walk(base):
         for f in files:
@@ -47,7 +53,9 @@ def repo_names(repo):
             except SyntaxError:
                 continue
             names.add(f[:-3])
-            _collect(tree, False, names)
+            _collect(tree, False, names, strings)
+    if split:
+        return names, strings - names
     return names
 
 
@@ -80,8 +88,12 @@ def modules_used_by(mod_name):
     return {m for m in seen if m.startswith("olsa.")}
 
 
-def missing_anchors(mod_name, repo):
-    """{anchor name: [analyser modules that rely on it]} for anchors that no longer exist in the repository."""
+def missing_anchors(mod_name, repo, soft=False):
+    """{anchor name: [analyser modules that rely on it]} for anchors that no longer exist in the repository.
+    Hard anchors are identifiers (a rename leaves name-matching rules blind: no rule is evaluated).
+    Soft anchors ("~name" in the table) are DATA of the repository - entries of its string tables such as
+    'genexpr', 'utf8', 'itertools' - whose disappearance is a change of behaviour the rules must judge:
+    they are reported as a note, the rules run."""
     try:
         table = json.load(open(os.path.join(_HERE, "anchors.json")))
     except FileNotFoundError:
@@ -90,6 +102,9 @@ def missing_anchors(mod_name, repo):
     out = {}
     for m in sorted(modules_used_by(mod_name)):
         for a in table.get(m, []):
-            if a not in have:
-                out.setdefault(a, []).append(m)
+            soft_a = a.startswith("~")
+            if soft_a != soft:
+                continue
+            if a.lstrip("~") not in have:
+                out.setdefault(a.lstrip("~"), []).append(m)
     return out
